@@ -260,19 +260,22 @@ class MosCollection:
         Check a single roCreate is present, and if *allow_incomplete* is True,
         also check a single roDelete is present.
         """
+        if len(self.mos_readers) == 0:
+            raise InvalidMosCollection("Failed to validate MosCollection: no MOS files given")
         ro_id = self.mos_readers[0].ro_id
-        assert all(mr.ro_id == ro_id for mr in self.mos_readers), "Mixed RO IDs found"
+        if not all(mr.ro_id == ro_id for mr in self.mos_readers):
+            raise InvalidMosCollection("Failed to validate MosCollection: Mixed RO IDs found")
         ro_creates = [
             mr for mr in self.mos_readers if mr.mos_type == RunningOrder
         ]
-        assert len(ro_creates) == 1, f"{len(ro_creates)} roCreates found"
+        if len(ro_creates) != 1:
+            raise InvalidMosCollection(f"Failed to validate MosCollection: {len(ro_creates)} roCreates found")
         self._ro = ro_creates[0].mos_object
         ro_deletes = [
             mr for mr in self.mos_readers if mr.mos_type == RunningOrderEnd
         ]
-        assert len(ro_deletes) < 2, f"{len(ro_deletes)} roDeletes found"
-        if not allow_incomplete:
-            assert len(ro_deletes) == 1, f"{len(ro_deletes)} roDeletes found"
+        if len(ro_deletes) > 1 or (not allow_incomplete and len(ro_deletes) != 1):
+            raise InvalidMosCollection(f"Failed to validate MosCollection: {len(ro_deletes)} roDeletes found")
         self._mos_readers = [
             mr for mr in self.mos_readers if mr.mos_type != RunningOrder
         ]
